@@ -793,36 +793,7 @@ func ruleC11Rest(c *Checker) {
 				k+" of the refreshed connection "+why+": state of the closed connection is carried into the connection handed out next")
 		}
 	}
-	// ConnData.SID and HandshakePattern branch on remoteKey != nil; SetRemote stores it
-	fRK := w.Field("mailbox.ConnData.remoteKey")
-	if fRK == nil {
-		c.anchorFail("mailbox.ConnData.remoteKey")
-	} else {
-		for _, n := range []string{"(*mailbox.ConnData).SID", "(*mailbox.ConnData).HandshakePattern"} {
-			fn := mboxFunc(c, n)
-			if fn == nil {
-				continue
-			}
-			okk := false
-			allInstrs(fn, func(in ssa.Instruction) {
-				if iff, ok := in.(*ssa.If); ok {
-					if bo, ok := iff.Cond.(*ssa.BinOp); ok && isNilConst(bo.Y) && isLoadOfField(bo.X, fRK) {
-						okk = true
-					}
-				}
-			})
-			c.decide(okk, "SIDFRESH", n+"|branches on remoteKey", fn.Pos(), "decides on remoteKey != nil", n+" does not depend on the presence of the remote key: SID and pattern can disagree after pairing")
-		}
-		if sr := mboxFunc(c, "(*mailbox.ConnData).SetRemote"); sr != nil {
-			okk := false
-			for _, st := range w.Stores(fRK) {
-				if st.Parent() == sr && st.Val == ssa.Value(sr.Params[1]) {
-					okk = true
-				}
-			}
-			c.decide(okk, "SIDFRESH", "ConnData.SetRemote|stores the key", sr.Pos(), "remoteKey = key", "SetRemote does not store the remote key: the post-pairing switch never happens")
-		}
-	}
+	ruleRemoteKey(c)
 	// publication in DoHandshake (as C04 PUBLISH)
 	if dh := mboxFunc(c, "(*mailbox.Machine).DoHandshake"); dh != nil {
 		fVer := w.Field("mailbox.handshakeState.version")
@@ -845,7 +816,7 @@ func ruleC11Rest(c *Checker) {
 		c.decide(okk, "SIDFRESH", "DoHandshake|SetRemote for version >= 2", dh.Pos(), "both parties publish the remote static key when the negotiated version is >= 2", "the remote key is not published exactly for version >= 2: the two sides move to different rendezvous points")
 	}
 	c.floor("EXCL", 8)
-	c.floor("SIDFRESH", 12)
+	c.floor("SIDFRESH", 13)
 	c.floor("FRESH", 18)
 }
 
@@ -1187,6 +1158,7 @@ func runC17(c *Checker) {
 	c.mute = map[string]bool{"EXCL": true}
 	ruleAcceptDial(c)
 	c.mute = nil
+	ruleRemoteKey(c)
 	c.floor("SIDFRESH", 8)
 }
 
@@ -1219,3 +1191,59 @@ func rootAlloc(v ssa.Value) *ssa.Alloc {
 }
 
 func isMakeChan(v ssa.Value) bool { _, ok := v.(*ssa.MakeChan); return ok }
+
+// ruleRemoteKey: the stored remote static key selects the rendezvous and the pattern on both
+// sides (shared by C11 and C17).
+func ruleRemoteKey(c *Checker) {
+	w := c.w
+	// ConnData.SID and HandshakePattern branch on remoteKey != nil; SetRemote stores it
+	fRK := w.Field("mailbox.ConnData.remoteKey")
+	if fRK == nil {
+		c.anchorFail("mailbox.ConnData.remoteKey")
+	} else {
+		for _, n := range []string{"(*mailbox.ConnData).SID", "(*mailbox.ConnData).HandshakePattern"} {
+			fn := mboxFunc(c, n)
+			if fn == nil {
+				continue
+			}
+			okk := false
+			allInstrs(fn, func(in ssa.Instruction) {
+				if iff, ok := in.(*ssa.If); ok {
+					if bo, ok := iff.Cond.(*ssa.BinOp); ok && isNilConst(bo.Y) && isLoadOfField(bo.X, fRK) {
+						okk = true
+					}
+				}
+			})
+			c.decide(okk, "SIDFRESH", n+"|branches on remoteKey", fn.Pos(), "decides on remoteKey != nil", n+" does not depend on the presence of the remote key: SID and pattern can disagree after pairing")
+		}
+		if sr := mboxFunc(c, "(*mailbox.ConnData).SetRemote"); sr != nil {
+			okk := false
+			for _, st := range w.Stores(fRK) {
+				if st.Parent() == sr && st.Val == ssa.Value(sr.Params[1]) {
+					okk = true
+				}
+			}
+			c.decide(okk, "SIDFRESH", "ConnData.SetRemote|stores the key", sr.Pos(), "remoteKey = key", "SetRemote does not store the remote key: the post-pairing switch never happens")
+			// ... and only when it reports success: a rejected key (callback error, the handshake aborts)
+			// must not switch this side to the key-derived rendezvous while the peer stays on the passphrase
+			bad := ""
+			for _, st := range w.Stores(fRK) {
+				if st.Parent() != sr {
+					continue
+				}
+				if r := pathToReturn(st, func(ret *ssa.Return) bool {
+					for _, v := range expandValues(ret.Results[len(ret.Results)-1]) {
+						if !isNilConst(v) {
+							return true
+						}
+					}
+					return false
+				}, nil); r != nil {
+					bad = w.pos(instrPos(r))
+				}
+			}
+			c.decide(bad == "", "SIDFRESH", "ConnData.SetRemote|key kept only on success", sr.Pos(), "no error return is reachable after the store of remoteKey",
+				"SetRemote can fail (return at "+bad+") after it has already stored the remote key: the handshake aborts but this side has moved to the key-derived SID and the KK pattern, the peer has not")
+		}
+	}
+}
